@@ -90,6 +90,9 @@ Definition skip_guard (q : req) : bool := negb (is_blind q && is_qskip q).
 Lemma block_skip r c s q : skip_guard q = true -> cl_skip_ex q (fst (block r c s q)) = true.
 Proof. case_req q; cbn; intros H; try discriminate H; reflexivity. Qed.
 
+Lemma block_relay r c s q : cl_relay_ex q (fst (block r c s q)) = true.
+Proof. case_req q; reflexivity. Qed.
+
 Lemma block_linked r c s q : forallb linked_wf (fst (block r c s q)) = true.
 Proof. case_req q; cbn; unfold nl_eqb; cbn; rewrite ?Nat.eqb_refl; reflexivity. Qed.
 
@@ -205,6 +208,14 @@ Proof.
     [apply forallb_true|reflexivity].
 Qed.
 
+Lemma spec_relay reqs s b c : cl_relay b reqs (fst (spec_conn s b c reqs)) = true.
+Proof.
+  unfold cl_relay.
+  apply (per_req_spec cl_relay_ex (fun _ => true)
+           (fun _ => eq_refl) (fun r c s q _ => block_relay r c s q) reqs s b c []);
+    [apply forallb_true|reflexivity].
+Qed.
+
 Lemma spec_skip reqs s b c :
   forallb skip_guard reqs = true -> cl_skip b reqs (fst (spec_conn s b c reqs)) = true.
 Proof.
@@ -290,7 +301,7 @@ Proof.
   intros HG. unfold conn_fail.
   rewrite (spec_in_range reqs s b c b (length reqs)) by lia.
   rewrite spec_hijack, spec_reqmod, spec_resmod, spec_session, spec_linked, spec_error.
-  rewrite (spec_skip _ _ _ _ HG). reflexivity.
+  rewrite (spec_skip _ _ _ _ HG), spec_relay. reflexivity.
 Qed.
 
 (* ---------------- contexts over the whole case ---------------- *)
